@@ -53,6 +53,9 @@ func constKeys(v ssa.Value) ([]string, bool) {
 
 func runC05(c *Ctx) {
 	p := c.P
+	// clause shared with C03: the trailer frame is decompressed by its own envelope flag (otherwise
+	// an uncompressed trailer frame in a compressed stream loses every trailer)
+	defer c.ImportRules("C03", "C03.12")
 	reach := p.RequestTimeReach()
 
 	c.Rule("C05.1", "header maps are changed only under constant control keys or by key-preserving relocation of ranged entries", 40)
